@@ -76,6 +76,7 @@ type Check struct {
 	Oracle  func(v *View, vd *Verdict)
 	// Post, if set, may execute further plans derived from the run (differential oracles).
 	Post    func(t *testing.T, r *Result, vd *Verdict)
+	CLI     bool // needs the per-tool binaries (cmd/* with an injected test file)
 	Quick   int // runs per quick check
 	Thorough int
 	Assumptions []string
@@ -255,9 +256,18 @@ func WorkerMain(t *testing.T) {
 				fmt.Printf("SKIP %d\n", idx)
 				continue
 			}
+			if p.CLI != nil && (CLIRun == nil || CLITool != p.CLI.Tool) {
+				fmt.Printf("SKIP %d\n", idx)
+				continue
+			}
 			fmt.Printf("RUN %d\n", idx)
 			o, _ := RunOne(t, c, p, idx)
 			emit("END", o)
+			if p.CLI != nil && n+1 < len(job.Idx) {
+				// the tool's flag state lives in a package-level Application: one process per run
+				fmt.Println("WORKER-YIELD")
+				return
+			}
 			if n%8 == 7 {
 				runtime.GC()
 			}
